@@ -108,8 +108,8 @@ def check(spec):
         labels.append("balanced")
         return Case(nontrivial(spec, ref), labels, evals)
     # out-of-range indices must not silently resolve to a sample of a *different* position
-    # bulk accessors
-    for item in ITEMS:
+    # bulk accessors (two passes: a layer that writes into a list handed out by a lower layer shows up in the second)
+    for item in ITEMS + ITEMS:
         exp_all = [S.ref_item(ref, item, k) for k in range(n)]
         try:
             got_all = getattr(ds, f"getall_{item}")()
